@@ -590,6 +590,85 @@ func (r *runner) do(a string) bool {
 		r.w.Dev.VerifForceUnderLoad(0)
 		r.harvest(out)
 		r.record("ENet [DHs 6 0]")
+	case "hsflood": // hsflood EXTRA : park every handshake worker in Bind.Send, fill the handshake queue, EXTRA datagrams more
+		if !r.up() {
+			r.skipped++
+			return true
+		}
+		workers := runtime.NumCPU()
+		extra := arg(1)
+		if extra == 0 {
+			extra = 64
+		}
+		r.w.Settle()
+		r.w.Dev.VerifForceUnderLoad(20 * time.Second)
+		release := make(chan struct{})
+		var entered atomic.Int32
+		r.w.Bind.SendGate = func(bufs [][]byte, to netip.AddrPort) {
+			if len(bufs) == 1 && len(bufs[0]) == ref.CookieSize && bufs[0][0] == ref.TypeCookie {
+				entered.Add(1)
+				<-release
+			}
+		}
+		st := ref.CreateInitiation(ref.NewPrivate(), ref.NewPrivate(), r.w.DevPub, ref.Key{}, 7, ref.Tai64n(time.Now()))
+		mk := func(n int) []sim.Dgram {
+			ds := make([]sim.Dgram, n)
+			for i := range ds {
+				ds[i] = sim.Dgram{From: floodSrc, Data: st.Msg}
+			}
+			return ds
+		}
+		poll := func(d time.Duration, f func() bool) bool {
+			t0 := time.Now()
+			for time.Since(t0) < d {
+				if f() {
+					return true
+				}
+				time.Sleep(200 * time.Microsecond)
+			}
+			return false
+		}
+		// every worker takes one message and parks in the cookie reply's Send
+		r.w.Bind.Inject(mk(workers)...)
+		parked := poll(5*time.Second, func() bool { return int(entered.Load()) == workers })
+		full := false
+		if parked {
+			r.w.Bind.Inject(mk(device.QueueHandshakeSize + extra)...)
+			full = poll(10*time.Second, func() bool {
+				_, _, h := r.w.Dev.VerifQueueLens()
+				return h == device.QueueHandshakeSize && r.w.Bind.Idle()
+			})
+			if full {
+				// let the receive routine finish the datagrams that find the queue full
+				poll(300*time.Millisecond, func() bool { return false })
+			}
+		}
+		close(release)
+		r.w.Bind.SendGate = nil
+		out := r.w.Take()
+		r.w.Dev.VerifForceUnderLoad(0)
+		r.harvest(out)
+		n := workers
+		g := []string{}
+		if parked {
+			n += device.QueueHandshakeSize
+		}
+		for i := 0; i < n; i++ {
+			g = append(g, "DHs 6 0")
+		}
+		if parked && full {
+			for i := 0; i < extra; i++ {
+				g = append(g, "DHs 8 0")
+			}
+		} else if parked {
+			for i := 0; i < extra; i++ {
+				g = append(g, "DHs 6 0")
+			}
+			r.skipped++ // the queue never filled: the overflow branch was not reached in this run
+		} else {
+			r.skipped++
+		}
+		r.record("ENet [" + strings.Join(g, ";") + "]")
 	case "ratelimit": // ratelimit N : N handshake initiations with valid MAC1 AND valid MAC2 from one address while under load
 		if !r.up() {
 			r.skipped++
@@ -962,6 +1041,7 @@ func directedPlans() (plans [][]string, names []string) {
 	add("removal", "tun r3,r3,r3", "remove 3", "remove 1", "net t 1 -1 ok", "tun r1", "removeall", "tun r2", "net t 2 -1 ok", "add 1 ep", "net h init 1", "net t 1 -1 ka", "tun r1")
 	add("identity-change", "tun r3", "setkey", "tun r1", "tun r2,r2", "net t 1 -1 ok", "net h init 1", "net t 1 -1 ka", "tun r1", "net h resp 2", "tun r2")
 	add("rate-limited-under-load", "ratelimit 12", "tun r3", "ratelimit 8", "net h init 1", "ratelimit 3", "setkey", "ratelimit 9", "down", "up", "ratelimit 7")
+	add("handshake-queue-overflow", "tun r3", "net t 1 -1 ok", "hsflood 64")
 	add("close-with-staged", "tun r3,r3,r3", "tun r1", "close", "gc", "tun r1")
 	add("close-down", "tun r3", "down", "close", "gc")
 	return
@@ -1137,7 +1217,10 @@ func main() {
 		plans, names := directedPlans()
 		for ci, cfg := range configs {
 			for i, p := range plans {
-				if ci >= 2 && strings.Contains(names[i], "overflow") {
+				if ci >= 2 && strings.Contains(names[i], "staged-overflow") {
+					continue
+				}
+				if ci%2 == 1 && strings.Contains(names[i], "handshake-queue-overflow") {
 					continue
 				}
 				cases = append(cases, runPlan(cfg, p, names[i]))
